@@ -1239,3 +1239,16 @@ Proof.
     split; [vm_compute; reflexivity|].
     vm_compute. discriminate.
 Qed.
+
+(* ---------- reported paths are clean relative paths, never the root ---------- *)
+Theorem walk_paths_clean_proof t : wf_tree t ->
+  forall p, In p (map st_path (walk t)) ->
+    p <> [] /\ p <> s_dot /\ p <> s_dotdot /\ has_prefix s_dotdotsep p = false /\
+    clean p = p /\ is_abs p = false.
+Proof.
+  intros Hwf p Hin. apply (proj1 (walk_complete_once_proof t Hwf)) in Hin.
+  destruct Hin as (cs & r & Hne & -> & Hat).
+  assert (Hok : okc cs) by (apply wf_names_okc; auto; eapply tree_at_names; eauto).
+  destruct (okc_not_special _ Hok) as (H1 & H2 & H3 & H4). destruct (okc_clean _ Hok) as [H5 H6].
+  repeat split; auto.
+Qed.
